@@ -302,6 +302,27 @@ Definition graph_of (e : engine) (ro : list name) (fo : name -> list name)
        (filter (fun b => mem (b_tag b) (t_nodes d 2)) (build_order e)),
    d_fbs d).
 
+(* ------------------------- hypotheses of the theorems, as a boolean check *)
+(* rank witness: an association list tag -> rank (absent = 0) *)
+Definition rank_of (rk : list (name * nat)) (x : name) : nat :=
+  match find (fun kv => name_eqb (fst kv) x) rk with Some kv => snd kv | None => 0 end.
+Fixpoint nodupb (l : list name) : bool :=
+  match l with [] => true | x :: l' => negb (mem x l') && nodupb l' end.
+Definition ownedb (e : engine) (p : name) : bool :=
+  existsb (fun b => mem p (b_own b)) (build_order e).
+(* unique (package, algorithm) names; every reference resolves to at least one
+   owned value; every declared input has a strictly smaller rank than its
+   consumer; ranks are below the number of algorithms *)
+Definition wf_engineb (e : engine) (rk : list (name * nat)) : bool :=
+  let bo := build_order e in
+  nodupb (map b_tag bo) &&
+  forallb (fun b =>
+    forallb (fun r => negb (is_nil (expand e r))) (a_deps (b_alg b)) &&
+    forallb (ownedb e) (b_ins e b) &&
+    forallb (ownedb e) (expands e (a_fb (b_alg b))) &&
+    forallb (fun p => Nat.ltb (rank_of rk (trim 2 p)) (rank_of rk (b_tag b))) (b_ins e b) &&
+    Nat.ltb (rank_of rk (b_tag b)) (length bo)) bo.
+
 (* --------------------------------------------- observation (harness) *)
 Definition assoc_fo (l : list (name * list name)) (v : name) : list name :=
   match find (fun kv => name_eqb (fst kv) v) l with Some kv => snd kv | None => [] end.
@@ -336,5 +357,8 @@ Example ex_anc : t_anc ex_dag [1;4] = [[1;3]; [1;2]] /\ t_anc ex_dag [1;2] = [].
 Proof. vm_compute. repeat split. Qed.
 Example ex_fb : d_fbs ex_dag = [([1;4;10;20], [1;2;10;21])] /\ t_fb ex_dag 2 [1;2] = [[1;4]].
 Proof. vm_compute. repeat split. Qed.
+Definition ex_rank : list (name * nat) := [([1;2], 0); ([1;3], 1); ([1;4], 2)].
+Example ex_wf : wf_engineb ex_eng ex_rank = true.
+Proof. vm_compute. reflexivity. Qed.
 Example ex_lvl : map (t_lvl ex_dag 2) [[1;2]; [1;3]; [1;4]] = [Some 0; Some 1; Some 2].
 Proof. vm_compute. reflexivity. Qed.
